@@ -3,15 +3,46 @@ from __future__ import annotations
 
 import json
 
-from .common import add_failure, bump, new_outcome
+from .common import LEAN, SRC, VERIF, add_failure, bump, new_outcome
 
 _add_failure = add_failure
 
 PROP = "C04"
-PROPS_FILES = ["CogentModel/Props/C04.lean"]
-LEAN_TARGETS = ["CogentModel.Props.C04"]
+# Props/C04Gen.lean: the definitions GENERATED from the current python source (Gen/C04Feature.lean) equal the hand model
+PROPS_FILES = ["CogentModel/Props/C04.lean", "CogentModel/Props/C04Gen.lean"]
+LEAN_TARGETS = ["CogentModel.Props.C04", "CogentModel.Props.C04Gen"]
 DRIVER = "drv_c04"
+GEN_FILE = LEAN / "CogentModel" / "Gen" / "C04Feature.lean"
+
+
+def generate(ctx):
+    """translator tie: re-translate Sequence.get_features / make_feature / parent_coordinates (old and new module) and
+    location._spans_from_locations / from_locations / FeatureMap.nucleic_reversed from the CURRENT source of the checked
+    tree (VERIF_REPO is honoured through harness.common.SRC) into Gen/C04Feature.lean; Props/C04Gen.lean then proves
+    every generated definition equal to the hand model for all arguments"""
+    import sys
+
+    if str(VERIF) not in sys.path:
+        sys.path.insert(0, str(VERIF))
+    from translator import c04_feature2lean as tr
+
+    lean, info, problems = tr.translate(SRC)
+    ctx.notes.append(f"c04_feature2lean: source tree {SRC}; statements translated {json.dumps(info)}")
+    if problems or lean is None:
+        # the last good generated file is kept so that the rest of the check still runs; the run is reported as broken
+        ctx.notes.append("c04_feature2lean: translation problems -> Gen/C04Feature.lean left as it was (stale)")
+        return [f"c04_feature2lean: {p}" for p in problems]
+    if tr.write_if_changed(GEN_FILE, lean):
+        ctx.notes.append("Gen/C04Feature.lean was rewritten (python source differs from the last generated text)")
+    return []
+
+
 TRUSTED = [
+    "translator/c04_feature2lean.py (python ast -> Lean for get_features' window arithmetic and span conversion, make_feature, "
+    "parent_coordinates, _spans_from_locations, from_locations, FeatureMap.nucleic_reversed; conventions B1-B5 in its header) "
+    "and its prelude Model/FeatureGenPrelude.lean (numpy/list primitives): the output Gen/C04Feature.lean is proved equal to the "
+    "hand model for all arguments (Props/C04Gen.lean, re-checked against freshly generated text every run); the hand model is "
+    "tied to the python originals by the window / feature / makefeature / cliplocate / history correspondence streams",
     "hand-written model lean/CogentModel/Model/FeatureView.lean of Sequence.get_features / make_feature / "
     "_spans_from_locations / FeatureMap.nucleic_reversed / Feature.get_slice positions (one model: old and new Sequence "
     "carry the same code; both are run), Model/FeatureSeq.lean (get_slice residues on C01's Sequence wrapper) and "
@@ -150,7 +181,16 @@ def gen_case(rng, kind=None, strided=False):
         pts = sorted(pts)
         spans = [[pts[2 * j] + offset, pts[2 * j + 1] + offset] for j in range(k)]
         feats.append(dict(name=f"f{i}", biotype=rng.choice(["gene", "cds"]), strand=rng.choice(["+", "-"]), spans=spans))
-    return dict(kind=kind or rng.choice(["old", "new"]), text=text, offset=offset, ops=ops, feats=feats)
+    case = dict(kind=kind or rng.choice(["old", "new"]), text=text, offset=offset, ops=ops, feats=feats)
+    # ORDER of operations: the features may reach the parent's annotation db only AFTER some views exist (the db is
+    # shared by reference through slices and rc; copies detach, so the late point is never after a copy op)
+    lead = 0
+    while lead < len(ops) and ops[lead][0] in ("s", "rc"):
+        lead += 1
+    if lead and rng.random() < 0.35:
+        case["add_at"] = rng.randint(1, lead)
+        case["add_how"] = rng.choice(["db", "db", "root.add_feature"])
+    return case
 
 
 def _gff_db(case):
@@ -178,19 +218,32 @@ def _gff_db(case):
         shutil.rmtree(d, ignore_errors=True)
 
 
+def _add_feats(root, case):
+    off = case["offset"]
+    for f in case["feats"]:
+        if case.get("add_how") == "root.add_feature":
+            # the user-facing entry on the (forward, un-sliced) parent: spans in ITS coordinates
+            root.add_feature(biotype=f["biotype"], name=f["name"], spans=[(a - off, b - off) for a, b in f["spans"]], strand=f["strand"])
+        else:
+            root.annotation_db.add_feature(seqid="s", biotype=f["biotype"], name=f["name"], spans=[tuple(s) for s in f["spans"]], strand=f["strand"])
+    # a feature on another sequence id must never be returned
+    root.annotation_db.add_feature(seqid="other", biotype="gene", name="alien", spans=[(0, len(case["text"]))], strand="+")
+
+
 def build(case):
-    seq = mk_seq(case["kind"], case["text"], case["offset"])
+    root = seq = mk_seq(case["kind"], case["text"], case["offset"])
+    add_at = 0 if case.get("gff") else case.get("add_at", 0)
     if case.get("gff"):
         seq.replace_annotation_db(_gff_db(case), check=False)
-    else:
-        for f in case["feats"]:
-            seq.annotation_db.add_feature(seqid="s", biotype=f["biotype"], name=f["name"], spans=[tuple(s) for s in f["spans"]], strand=f["strand"])
-        # a feature on another sequence id must never be returned
-        seq.annotation_db.add_feature(seqid="other", biotype="gene", name="alien", spans=[(0, len(case["text"]))], strand="+")
+    elif add_at == 0:
+        _add_feats(root, case)
     state = (case["offset"], case["offset"] + len(case["text"]), False)
-    for op in case["ops"]:
+    for i, op in enumerate(case["ops"]):
         seq = apply_op(seq, op)
         state = apply_op_spec(state, op)
+        if add_at == i + 1:
+            # the views made so far hold a reference to the parent's db: they must see what is added now
+            _add_feats(root, case)
     return seq, state
 
 
@@ -199,6 +252,18 @@ def oracle_slice(case, f, state):
     p0, p1, _ = state
     off = case["offset"]
     s = "".join(case["text"][max(a, p0) - off : min(b, p1) - off] for a, b in sorted(f["spans"]) if max(a, p0) < min(b, p1))
+    return rc(s) if f["strand"] == "-" else s
+
+
+def oracle_contig(case, f, state):
+    """the contiguous form: the parent segment from the first to the last retained position of the feature, read on the
+    feature's strand ('' when nothing is retained)"""
+    p0, p1, _ = state
+    off = case["offset"]
+    kept = [(max(a, p0), min(b, p1)) for a, b in sorted(f["spans"]) if max(a, p0) < min(b, p1)]
+    if not kept:
+        return ""
+    s = case["text"][kept[0][0] - off : kept[-1][1] - off]
     return rc(s) if f["strand"] == "-" else s
 
 
@@ -247,6 +312,31 @@ def touch_class(case, state, feats):
     ends_at_start = any(b == p0 for f in feats for a, b in f["spans"])
     starts_at_end = any(a == p1 for f in feats for a, b in f["spans"])
     return "span-ends-at-view-start" if ends_at_start else "span-starts-at-view-end" if starts_at_end else "no-boundary-touch"
+
+
+# --------------------------------------------------------------------------
+# every way of READING a feature that a query returned (not only the default get_slice())
+# --------------------------------------------------------------------------
+def feature_forms(view, f, want_spliced, want_contig, fully_retained, kind=None):
+    """[(form, want, got)] for the other observation forms of one feature bound to `view`:
+    `get_slice(allow_gaps=True)` -- the CONTIGUOUS segment from the first to the last retained position, read on the
+    feature's strand like the spliced form; `view[feature]` -- the spliced form; `get_slice(complete=True)` -- the
+    spliced form when the whole feature is retained.  (The new-style offset guard of the open finding
+    C04-new-sequence-feature-slice-offset-guard is passed over, as for the default form.)"""
+    out = []
+    forms = [("allow_gaps", want_contig, lambda: f.get_slice(allow_gaps=True)), ("view[feature]", want_spliced, lambda: view[f])]
+    if fully_retained:
+        forms.append(("complete", want_spliced, lambda: f.get_slice(complete=True)))
+    for form, want, call in forms:
+        try:
+            got = call()
+            got = got.to_dict() if isinstance(want, dict) else str(got)
+        except Exception as e:  # noqa: BLE001
+            got = f"raised {type(e).__name__}: {e}"
+            if kind == "new" and "cannot set offset" in got:
+                continue
+        out.append((form, want, got))
+    return out
 
 
 # --------------------------------------------------------------------------
@@ -332,6 +422,18 @@ def run_case(case, rng=None, out=None, win_limit=12, wins=None):
                         fails.append(("on a strided view feature.get_slice() differs from the shown residues inside its spans",
                                       dict(inp, feature=byname[f.name]), wanted[f.name], s_,
                                       f"slice:{flavour}:{byname[f.name]['strand']}"))
+                        continue
+                    spec = byname[f.name]
+                    ps = [p for x, y in sorted(spec["spans"]) for p in plus if x <= p < y]
+                    wc = "".join(case["text"][p - off] for p in plus if ps and ps[0] <= p <= ps[-1])
+                    wc = rc(wc) if spec["strand"] == "-" else wc
+                    for form, want_f, got_f in feature_forms(seq, f, wanted[f.name], wc, False, case["kind"]):
+                        if out is not None:
+                            out["evaluations"] += 1
+                            bump(out, "feature_form", form)
+                        if got_f != want_f:
+                            fails.append((f"on a strided view the feature read as {form} differs from the shown residues it denotes",
+                                          dict(inp, feature=spec, form=form), want_f, got_f, f"form:{form}:{flavour}:{spec['strand']}"))
                 if ap:
                     missing = sorted(k for k, w in wanted.items() if w and k not in names)
                     if missing:
@@ -360,6 +462,18 @@ def run_case(case, rng=None, out=None, win_limit=12, wins=None):
                         "feature.get_slice() differs from the parent residues the feature denotes on this view", dict(inp, feature=spec),
                         want, s, f"slice:{flavour}:{spec['strand']}:{'multi' if len(spec['spans']) > 1 else 'single'}:{'partly' if partial_in else 'inside'}",
                     ))
+                    continue
+                # the other ways of reading the same feature
+                for form, want_f, got_f in feature_forms(seq, f, want, oracle_contig(case, spec, state), not partial_in, case["kind"]):
+                    if out is not None:
+                        out["evaluations"] += 1
+                        bump(out, "feature_form", form)
+                        rel_rev = (spec["strand"] == "-") != rev
+                        bump(out, "feature_form_orientation", "reversed relative to the view" if rel_rev else "same orientation as the view")
+                    if got_f != want_f:
+                        fails.append((f"the feature read as {form} differs from the residues it denotes on this view, read on its strand",
+                                      dict(inp, feature=spec, form=form), want_f, got_f,
+                                      f"form:{form}:{flavour}:{spec['strand']}:{'multi' if len(spec['spans']) > 1 else 'single'}"))
     return fails
 
 
@@ -522,15 +636,24 @@ def gen_aln_hist_case(rng):
             out_ops.append(rng.choice(copies))
     if rng.random() < 0.15:
         out_ops.insert(0, rng.choice(copies))
-    return dict(rows=rows, feats=feats, aln_feats=aln_feats, ops=out_ops)
+    case = dict(rows=rows, feats=feats, aln_feats=aln_feats, ops=out_ops)
+    if not any(op[0] in ("deepcopy", "copy") for op in out_ops) and out_ops and rng.random() < 0.4:
+        case["late"] = True  # sequence features reach the parent alignment's db AFTER the slices / rc were made
+    return case
 
 
 def build_aln_hist(case):
     import cogent3
 
-    aln = cogent3.make_aligned_seqs(case["rows"], moltype="dna", array_align=False)
-    for f in case["feats"]:
-        aln.annotation_db.add_feature(seqid=f["seqid"], biotype="gene", name=f["name"], spans=[tuple(s) for s in f["spans"]], strand=f["strand"])
+    root = aln = cogent3.make_aligned_seqs(case["rows"], moltype="dna", array_align=False)
+    late = bool(case.get("late")) and not any(op[0] in ("deepcopy", "copy") for op in case["ops"])
+
+    def add_seq_feats():
+        for f in case["feats"]:
+            root.annotation_db.add_feature(seqid=f["seqid"], biotype="gene", name=f["name"], spans=[tuple(s) for s in f["spans"]], strand=f["strand"])
+
+    if not late:
+        add_seq_feats()
     for f in case["aln_feats"]:
         aln.add_feature(biotype="region", name=f["name"], spans=[tuple(s) for s in f["spans"]], on_alignment=True, strand=f["strand"])
     n = len(next(iter(case["rows"].values())))
@@ -549,6 +672,8 @@ def build_aln_hist(case):
             a, b, _ = slice(op[1], op[2], None).indices(B - A)
             b = max(a, b)
             state = (B - b, B - a, rev) if rev else (A + a, A + b, rev)
+    if late:
+        add_seq_feats()
     return aln, state
 
 
@@ -623,6 +748,32 @@ def run_aln_hist_case(case, out=None):
                 fails.append((f"{api}: feature slice differs from the residues at the original ungapped coordinates",
                               dict(inp, seqid=sid, feature=spec, allow_partial=partial), want, got,
                               f"alnh:{api}:slice:{rowc}:{flav}:{spec['strand']}:{'multi' if len(spec['spans']) > 1 else 'single'}"))
+                continue
+            # the contiguous form get_slice(allow_gaps=True): on an alignment every column from the first to the last
+            # retained residue of the feature (gap columns of its row included), on a sequence the ungapped segment;
+            # read on the feature's strand
+            lo, hi = seg[sid]
+            kept = [(max(a, lo), min(b, hi)) for a, b in sorted(spec["spans"]) if max(a, lo) < min(b, hi)]
+            if not kept:
+                continue
+            if as_alignment:
+                c0, c1 = col_of[sid][kept[0][0]], col_of[sid][kept[-1][1] - 1] + 1
+                wantc = {k: (rc(v[c0:c1]) if spec["strand"] == "-" else v[c0:c1]) for k, v in rows.items()}
+            else:
+                wantc = ungapped[sid][kept[0][0] : kept[-1][1]]
+                wantc = rc(wantc) if spec["strand"] == "-" else wantc
+            try:
+                gotc = f.get_slice(allow_gaps=True)
+                gotc = gotc.to_dict() if as_alignment else str(gotc)
+            except Exception as e:  # noqa: BLE001
+                gotc = f"raised {type(e).__name__}: {e}"
+            if out is not None:
+                out["evaluations"] += 1
+                bump(out, "aln_feature_form", f"allow_gaps:{'alignment' if as_alignment else 'sequence'}")
+            if gotc != wantc:
+                fails.append((f"{api}: the contiguous form get_slice(allow_gaps=True) differs from the columns / residues between the feature's first and last retained position, read on its strand",
+                              dict(inp, seqid=sid, feature=spec, allow_partial=partial, form="allow_gaps"), wantc, gotc,
+                              f"alnh:{api}:form:allow_gaps:{flav}:{spec['strand']}"))
 
     live = [k for k in names if seg[k] is not None]
     for sid in live:
@@ -1066,6 +1217,7 @@ def spec_check(ctx, budget):
             case["gff"] = dict(order=rng.choice(["desc", "desc", "asc"]), lpb=rng.choice([1, 2, 3, 4]))
             bump(out, "db_source", f"gff:{case['gff']['order']}:lpb={case['gff']['lpb']}")
         bump(out, "impl", case["kind"])
+        bump(out, "features_added", "before the history" if not case.get("add_at") or case.get("gff") else f"after {min(case['add_at'], 3)}{'+' if case['add_at'] > 3 else ''} ops ({case['add_how']})")
         bump(out, "history_len", len(case["ops"]))
         for op in case["ops"]:
             bump(out, "op", op[0])
@@ -1085,6 +1237,7 @@ def spec_check(ctx, budget):
         case = gen_aln_hist_case(rng)
         for op in case["ops"]:
             bump(out, "aln_op", op[0])
+        bump(out, "aln_features_added", "after the history" if case.get("late") else "before the history")
         for what, inp, want, got, sig in run_aln_hist_case(case, out):
             add_failure(out, "spec", what, inp, want, got, sig=sig)
     for i in range(40 * budget):
@@ -1242,6 +1395,14 @@ def correspondence(ctx):
                 # residue-level model (Model/FeatureSeq.lean getSlice) on the view's own parent string
                 reqs.append(("getslice", dict(view=vj, parent=_parent_text(seq), minus=f["strand"] == "-", spans=f["spans"])))
                 expect.append(("getslice", dict(case=case, feature=f), real, resid))
+                # the contiguous form get_slice(allow_gaps=True) vs getSliceContig
+                if "err" not in real:
+                    try:
+                        rc_ = str([x for x in seq.get_features(name=f["name"], allow_partial=True)][0].get_slice(allow_gaps=True))
+                    except Exception as e:  # noqa: BLE001
+                        rc_ = f"raised {type(e).__name__}: {e}"
+                    reqs.append(("getslice_contig", dict(view=vj, parent=_parent_text(seq), minus=f["strand"] == "-", spans=f["spans"])))
+                    expect.append(("getslice_contig", dict(case=case, feature=f), real, rc_))
                 if case["kind"] == "new":
                     # new-style `_mapped`: the model predicts exactly when the offset guard fires
                     reqs.append(("getslice_new", dict(view=vj, parent=_parent_text(seq), minus=f["strand"] == "-", spans=f["spans"])))
@@ -1473,6 +1634,11 @@ def correspondence(ctx):
                 add_failure(out, "corr", "strided model positions do not spell the residues get_slice returned", inp, txt, resid, confirmed=False)
             else:
                 out["nontrivial"].add(("fs", json.dumps(inp["case"]["ops"]), inp["case"]["text"], inp["feature"]["name"]))
+        elif kind == "getslice_contig":
+            if rep != extra:
+                add_failure(out, "corr", "getSliceContig model differs from get_slice(allow_gaps=True)", inp, rep, extra, confirmed=False)
+            elif (inp["feature"]["strand"] == "-") != (inp["case"]["ops"].count(["rc"]) % 2 == 1):
+                out["nontrivial"].add(("contig", json.dumps(inp["case"]["ops"]), inp["case"]["text"], inp["feature"]["name"]))
         elif kind == "getslice":
             if "err" in real:
                 if rep != real:
